@@ -826,18 +826,31 @@ func rrScenario(param string) vsched.Scenario {
 				return obs, t
 			}
 			desc := fmt.Sprintf("n=%d, %d sequential selections then %d threads x %d selections", sp.n, sp.pre, sp.threads, sp.sel)
-			for j, v := range pre {
+			total := sp.threads * sp.sel
+			for _, v := range append(append([]int{}, pre...), post...) {
 				if v < 0 {
 					return obs, tag + " non-member :: " + desc + ": a sequential selection returned a client outside the group"
 				}
-				if v != j%sp.n {
-					return obs, fmt.Sprintf("%s sequential-order :: %s: sequential selection #%d returned c%d, cyclic configuration order gives c%d", tag, desc, j+1, v, j%sp.n)
+			}
+			if len(post) != 2 {
+				return obs, tag + " incomplete :: the selections did not finish"
+			}
+			// where the cycle starts is not demanded: the first sequential selection
+			// (or, without one, the selection after the concurrent phase) fixes it
+			start := 0
+			if len(pre) > 0 {
+				start = pre[0]
+			} else {
+				start = ((post[0]-total)%sp.n + sp.n) % sp.n
+			}
+			for j, v := range pre {
+				if w := (start + j) % sp.n; v != w {
+					return obs, fmt.Sprintf("%s sequential-order :: %s: sequential selections returned %v, cyclic configuration order from c%d gives c%d at #%d", tag, desc, pre, start, w, j+1)
 				}
 			}
-			total := sp.threads * sp.sel
 			want := make([]int, sp.n)
 			for j := 0; j < total; j++ {
-				want[(sp.pre+j)%sp.n]++
+				want[(start+sp.pre+j)%sp.n]++
 			}
 			got := make([]int, sp.n)
 			for _, rs := range results {
@@ -852,11 +865,11 @@ func rrScenario(param string) vsched.Scenario {
 				}
 			}
 			if fmt.Sprint(got) != fmt.Sprint(want) {
-				return obs, fmt.Sprintf("%s concurrent-multiset :: %s: the concurrent selections handed out clients with multiplicities %v, the next %d elements of the cycle have %v (per-thread results %v)", tag, desc, got, total, want, results)
+				return obs, fmt.Sprintf("%s concurrent-multiset :: %s: the concurrent selections handed out clients with multiplicities %v, the next %d elements of the cycle have %v (per-thread results %v, then %v)", tag, desc, got, total, want, results, post)
 			}
 			for j, v := range post {
-				if w := (sp.pre + total + j) % sp.n; v != w {
-					return obs, fmt.Sprintf("%s order-after-concurrent-phase :: %s: selection #%d after the concurrent phase returned c%d, the cycle continues with c%d", tag, desc, j+1, v, w)
+				if w := (start + sp.pre + total + j) % sp.n; v != w {
+					return obs, fmt.Sprintf("%s order-after-concurrent-phase :: %s: selection #%d after the concurrent phase returned c%d, the cycle continues with c%d (per-thread results %v)", tag, desc, j+1, v, w, results)
 				}
 			}
 			return obs, ""
@@ -988,7 +1001,7 @@ func fold(c *harness.Check, scenario string, fn harness.ScenarioFn, rs []harness
 		for k, n := range st.Observations {
 			a.obs[k] = true
 			c.Distinct(scenario+"|"+k, true)
-			if strings.HasSuffix(k, "leak=true") {
+			if strings.Contains(k, "leak=true") {
 				a.leaks += n
 			}
 		}
@@ -999,6 +1012,17 @@ func fold(c *harness.Check, scenario string, fn harness.ScenarioFn, rs []harness
 			harness.Fatal("hist(%s): %d executions, the stated enumeration has %d histories", r.Param, st.Execs, histCount(sp))
 		}
 		c.Count(st.Execs, int64(len(st.Observations)), st.Steps)
+		if sp.part != "hist" && (sp.n == 3 && sp.pre <= 1 && sp.threads <= 3 && sp.sel <= 3) && sp.proto == "tcp" {
+			var keys []string
+			for k := range st.Observations {
+				keys = append(keys, k)
+			}
+			sort.Strings(keys)
+			if len(keys) > 3 {
+				keys = append(keys[:2], keys[len(keys)-1])
+			}
+			c.Sample(map[string]any{"kind": sp.part + " (some of the distinct observations of one parameterisation)", "param": r.Param, "executions": st.Execs, "distinct_observations": len(st.Observations), "observations": keys})
+		}
 		for _, v := range st.Violations {
 			shape, details, _ := strings.Cut(v.Msg, " :: ")
 			*viols = append(*viols, pendingViol{shape, details, scenario, r.Param, v})
@@ -1036,7 +1060,38 @@ func reportViolations(c *harness.Check, fns map[string]harness.ScenarioFn, viols
 
 // ---------------------------------------------------------------------------
 
-var scenarioFns = map[string]harness.ScenarioFn{"hist": histScenario, "rr": rrScenario, "rand": randScenario}
+var scenarioFns = map[string]harness.ScenarioFn{"hist": limited(histScenario), "rr": limited(rrScenario), "rand": limited(randScenario)}
+
+// limited keeps a shard worker from recording the same failing shape over and
+// over (a broken scan fails on most histories; each record carries the whole
+// choice list): only the first few failures of a shape are reported as such by
+// one worker process, later ones only show in the observation key.  Replays
+// and confirmations (limit off) always report.
+var (
+	limitOn    bool
+	shapeCount = map[string]int{}
+)
+
+func limited(fn harness.ScenarioFn) harness.ScenarioFn {
+	return func(param string) vsched.Scenario {
+		sc := fn(param)
+		return func() (func(), func(*vsched.Exec) (string, string)) {
+			body, check := sc()
+			return body, func(e *vsched.Exec) (string, string) {
+				obs, msg := check(e)
+				if msg == "" || !limitOn {
+					return obs, msg
+				}
+				shape, _, _ := strings.Cut(msg, " :: ")
+				shapeCount[shape]++
+				if shapeCount[shape] > 4 {
+					return obs + " VIOLATES " + shape, ""
+				}
+				return obs, msg
+			}
+		}
+	}
+}
 
 func replay(c *harness.Check) {
 	r, err := harness.ReplayFile(c.Replay)
@@ -1090,7 +1145,9 @@ func main() {
 	for n, f := range scenarioFns {
 		harness.Register(n, f)
 	}
+	limitOn = true // only matters inside a shard worker: WorkerMain does not return there
 	harness.WorkerMain()
+	limitOn = false
 	c := harness.Start("C19")
 	if c.Replay != "" {
 		replay(c)
@@ -1103,14 +1160,16 @@ func main() {
 		"latencies are multiples of 1 ms and the timeout is 5 s, so the integer mean over 32 slots is exact",
 		"UDP groups: probe function scripted through overlay_static/clientgroups/c19_export.go (the real UDP probe needs a kernel socket); TCP groups run the real probe.TCPProbe over an in-memory connection",
 		"retention taken from the property: 64 rounds (availability), 32 rounds (latency, min-max-latency)",
-		"not demanded: behaviour after 2^63 round-robin selections; which member random returns; winding down of the probe loop after cancellation (noted as leak)",
+		"not demanded: behaviour after 2^63 round-robin selections; at which member the round-robin cycle starts; which member random returns; winding down of the probe loop after cancellation (noted as leak)",
 	}
 	selfTest(c)
 
 	aggs := map[string]*agg{}
 	var order []string
 	var viols []pendingViol
-	budget := harness.Pick(c, 100*time.Second, 45*time.Minute)
+	// hang protection only: generous enough that a loaded machine does not cap a
+	// run (a cap would make the counts depend on the load)
+	budget := harness.Pick(c, 20*time.Minute, 3*time.Hour)
 
 	// ---- round-robin: all interleavings
 	var rrParams []string
@@ -1134,7 +1193,7 @@ func main() {
 			}
 		}
 	}
-	fold(c, "rr", rrScenario, harness.ExploreBatch("rr", rrParams, maxPoints, budget, false), func(sp spec) string {
+	fold(c, "rr", scenarioFns["rr"], harness.ExploreBatch("rr", rrParams, maxPoints, budget, false), func(sp spec) string {
 		return fmt.Sprintf("round-robin/%s %d threads x %d selections", sp.proto, sp.threads, sp.sel)
 	}, aggs, &order, &viols)
 
@@ -1145,13 +1204,13 @@ func main() {
 			randParams = append(randParams, spec{part: "rand", proto: proto, policy: "random", n: n, sel: harness.Pick(c, 3, 4)}.String())
 		}
 	}
-	fold(c, "rand", randScenario, harness.ExploreBatch("rand", randParams, 0, budget, true), func(sp spec) string {
+	fold(c, "rand", scenarioFns["rand"], harness.ExploreBatch("rand", randParams, 0, budget, true), func(sp spec) string {
 		return "random/" + sp.proto
 	}, aggs, &order, &viols)
 
 	// ---- histories
 	hp := histParams(thorough)
-	fold(c, "hist", histScenario, harness.ExploreBatch("hist", hp, 0, budget, true), func(sp spec) string {
+	fold(c, "hist", scenarioFns["hist"], harness.ExploreBatch("hist", hp, 0, budget, true), func(sp spec) string {
 		g := fmt.Sprintf("%s/%s n=%d alphabet=%s heads=%s fillers=%s suffix-depth=%d", sp.policy, sp.proto, sp.n, sp.alpha, sp.hs, sp.fs, sp.depth)
 		if sp.conc != 0 {
 			g += fmt.Sprintf(" concurrency=%d", sp.conc)
@@ -1225,13 +1284,17 @@ func histParams(thorough bool) []string {
 					add(spec{proto: "tcp", policy: pol, n: 1, k: k, depth: 1, alpha: "A4", hs: "small", fs: "small"})
 					add(spec{proto: "tcp", policy: pol, n: 3, k: k, depth: 1, alpha: "A3", hs: "small", fs: "small", conc: 1})
 				}
+				if k == 32 || k == 64 {
+					add(spec{proto: "tcp", policy: pol, n: 3, k: k, depth: 2, alpha: "A4", hs: "none", fs: "small"})
+				}
 				// UDP groups (same generic selector, separate constructors)
-				add(spec{proto: "udp", policy: pol, n: 2, k: k, depth: 1, alpha: "A4", hs: "small", fs: "small"})
+				add(spec{proto: "udp", policy: pol, n: 2, k: k, depth: 2, alpha: "A4", hs: "small", fs: "small"})
 				continue
 			}
 			add(spec{proto: "tcp", policy: pol, n: 2, k: k, depth: 2, alpha: "A4", hs: "full", fs: "full"})
 			add(spec{proto: "tcp", policy: pol, n: 2, k: k, depth: 3, alpha: "A4", hs: "none", fs: "full"})
-			add(spec{proto: "tcp", policy: pol, n: 3, k: k, depth: 2, alpha: "A4", hs: "small", fs: "small"})
+			add(spec{proto: "tcp", policy: pol, n: 3, k: k, depth: 2, alpha: "A4", hs: "none", fs: "small"})
+			add(spec{proto: "tcp", policy: pol, n: 3, k: k, depth: 1, alpha: "A4", hs: "full", fs: "small"})
 			add(spec{proto: "tcp", policy: pol, n: 4, k: k, depth: 1, alpha: "A3", hs: "small", fs: "small"})
 			add(spec{proto: "tcp", policy: pol, n: 5, k: k, depth: 1, alpha: "A3", hs: "small", fs: "small"})
 			add(spec{proto: "udp", policy: pol, n: 2, k: k, depth: 2, alpha: "A4", hs: "small", fs: "small"})
